@@ -7,6 +7,7 @@ distance call returns `dist` when `dist ≤ bound` and infinity otherwise (C03).
 -/
 import Dtaiverif.Proofs.SubseqSearch
 import Dtaiverif.Proofs.CostInst
+import Dtaiverif.Proofs.Bounds
 
 namespace Dtai
 variable {α : Type} [LinearOrderedAddCommMonoidWithTop α]
@@ -124,6 +125,32 @@ theorem C14_all_histories (useLb : Bool) (M : α) (cands : List (Nat × α × α
 /- non-vacuity: ties, a bound, and a candidate skipped by its lower bound -/
 example : (knnScan 2 true (Cost.fin 10) [(0, .fin 4, .fin 1), (1, .fin 2, .fin 2), (2, .fin 12, .fin 11),
     (3, .fin 2, .fin 0), (4, .fin 3, .fin 3)]).best = [(.fin 2, 3), (.fin 2, 1)] := by decide
+
+/-! ### end to end with C09: the hypothesis `lb ≤ dist` discharged for DTW grids -/
+
+/-- the candidate list built from the DTW grids (query vs candidate `i`) and their row-wise lower bounds:
+distance = the optimum over admissible paths (`dtwSpec`, C01), lower bound = the sum of the row bounds
+(`lbUpTo`, the shape of LB_Keogh, C09) -/
+def candsOfGrids (gs : List (Grid α × (Nat → α))) : List (Nat × α × α) :=
+  gs.zipIdx.map fun p => (p.2, dtwSpec p.1.1, lbUpTo p.1.2 (p.1.1.r - 1))
+
+/-- **Exact k-NN search over DTW distances with Keogh-type lower bounds**: for candidate grids with
+non-negative costs and penalty, non-degenerate psi, no relaxation on the query side, and row bounds
+that are below every admissible point cost of their row, the scan returns the k smallest qualifying DTW
+optima — the lower-bound hypothesis of `C14_exact` is a theorem here (`lb_le_dtw`). -/
+theorem C14_end_to_end (k : Nat) (hk : 1 ≤ k) (useLb : Bool) (M : α) (gs : List (Grid α × (Nat → α)))
+    (hg : ∀ p ∈ gs, p.1.NonNeg ∧ p.1.NonDegenerate ∧ p.1.psi1b = 0 ∧ p.1.psi1e = 0 ∧
+      ∀ i j, p.1.ok i j = true → p.2 i ≤ p.1.cost i j) :
+    KSpec k M (candsOfGrids gs) (knnScan k useLb M (candsOfGrids gs)).best := by
+  apply C14_exact k hk useLb M
+  intro c hc
+  simp only [candsOfGrids, List.mem_map] at hc
+  obtain ⟨p, hp, rfl⟩ := hc
+  have hmem : p.1 ∈ gs := by
+    have := List.mem_zipIdx hp
+    exact (List.mem_iff_getElem.mpr ⟨p.2 - 0, by omega, by simpa using this.2.2.symm⟩)
+  obtain ⟨h1, h2, h3, h4, h5⟩ := hg p.1 hmem
+  exact lb_le_dtw p.1.1 h1 h2 p.1.2 h5 h3 h4
 
 /-! ### `k = None`: the full ranking -/
 
